@@ -237,7 +237,7 @@ class Outcome:
         "notes", "bad_progress", "tasks_at_raise", "identity_violations", "input_changes",
         "events_digest", "events", "fired", "probes", "deliveries", "sim_time", "decisions",
         "n_results", "worker_notes", "stall_injected", "max_task_dur", "startup_total",
-        "tasks_submitted", "result", "skipped", "completions", "steps_at_raise", "steps_total",
+        "tasks_submitted", "result", "skipped", "completions", "steps_at_raise", "steps_total", "arg_changes",
     )
 
     def __init__(self):
@@ -333,7 +333,6 @@ def run_entry(workload, config=None, decisions=None, cache=None, keep_result=Fal
         circuit = kwargs["circuit"]
     data_before = dataset_digest(data)
     circ_before = circuit.serialize() if circuit is not None else None
-    kwargs_before = summarize({k: v for k, v in kwargs.items() if k != "circuit"})
 
     num_procs = int(cfg["num_procs"])
     if cfg.get("override") is not None:
@@ -344,6 +343,7 @@ def run_entry(workload, config=None, decisions=None, cache=None, keep_result=Fal
         kwargs["num_procs"] = num_procs
     for k, v in (cfg.get("extra_kwargs") or {}).items():
         kwargs[k] = v
+    kwargs_before = summarize({k: v for k, v in kwargs.items() if k != "circuit"})
 
     sim = simpool.Sim(
         decisions,
@@ -437,10 +437,10 @@ def run_entry(workload, config=None, decisions=None, cache=None, keep_result=Fal
         changes.append("input data set modified: " + d)
     if circuit is not None and circuit.serialize() != circ_before:
         changes.append(f"input circuit modified: {circ_before} -> {circuit.serialize()}")
-    d = diff(kwargs_before, summarize({k: v for k, v in kwargs.items() if k not in ("circuit", "num_procs")}), rtol=0.0, atol=0.0)
-    if d:
-        changes.append("input argument modified: " + d)
     out.input_changes = changes
+    # other caller-owned arguments: outside the statement, recorded for information only
+    d = diff(kwargs_before, summarize({k: v for k, v in kwargs.items() if k != "circuit"}), rtol=0.0, atol=0.0)
+    out.arg_changes = [d] if d else []
     if keep_result:
         out.result = result
     return out
